@@ -106,6 +106,9 @@ func runSolver(ctx context.Context, s SolverCfg, file string, timeoutS, seed int
 
 // solveVC races the solvers on one obligation.
 func solveVC(vc *VC, prelude, dir string, timeoutS, seed int, twoSolvers bool) {
+	if vc.Status == "detached" {
+		return
+	}
 	file := vcFileName(dir, vc)
 	os.WriteFile(file, []byte(vc.smtText(prelude, "")), 0o644)
 	start := time.Now()
